@@ -408,7 +408,7 @@ func (s *scheduler) send(ch *channel, v value, where string) {
 	sg := &sudog{g: s.cur, ch: ch, val: v, isSend: true, caseIdx: -1}
 	s.cur.fired = nil
 	ch.sendq = append(ch.sendq, sg)
-	s.block(fmt.Sprintf("chan send (ch%d) %s", ch.id, where))
+	s.block(fmt.Sprintf("chan send %s", where))
 	f := s.cur.fired
 	s.cur.fired = nil
 	if f != nil && f.byClose {
@@ -428,7 +428,7 @@ func (s *scheduler) recv(ch *channel, where string) (value, bool) {
 	sg := &sudog{g: s.cur, ch: ch, caseIdx: -1}
 	s.cur.fired = nil
 	ch.recvq = append(ch.recvq, sg)
-	s.block(fmt.Sprintf("chan receive (ch%d) %s", ch.id, where))
+	s.block(fmt.Sprintf("chan receive %s", where))
 	s.cur.fired = nil
 	return sg.val, sg.ok
 }
